@@ -31,6 +31,7 @@ func ServerCallOf(ctx context.Context) *Call {
 // Knobs are the per-call transport parameters and fault plan, fixed before
 // the call starts (generated from the tape by the workload).
 type Knobs struct {
+	HTTP10       bool          // crafted requests only: the request is HTTP/1.0 (no chunking, hence no trailers: net/http drops them silently)
 	PumpLag      time.Duration // after forwarding request-body bytes the transport goroutine is busy this long before it reads again
 	FinishLag    time.Duration // the end of the response (END_STREAM / last chunk) follows the handler's return this late
 	MutateURL    bool          // the HTTPClient edits request.URL in place (per-call query parameter)
@@ -599,6 +600,9 @@ func (e *Exchange) runHandler() {
 		sreq.Proto, sreq.ProtoMajor, sreq.ProtoMinor = "HTTP/2.0", 2, 0
 	} else {
 		sreq.Proto, sreq.ProtoMajor, sreq.ProtoMinor = "HTTP/1.1", 1, 1
+		if c.K.HTTP10 {
+			sreq.Proto, sreq.ProtoMinor = "HTTP/1.0", 0
+		}
 	}
 	rw := &respWriter{e: e}
 	func() {
@@ -677,6 +681,10 @@ func (e *Exchange) finishHandler() {
 		}
 	}
 	e.Trailer = tr
+	if e.Call.K.HTTP10 && !e.Call.K.HTTP2 {
+		// an HTTP/1.0 response is not chunked: there is nowhere to put trailers
+		e.Trailer = http.Header{}
+	}
 	if !e.Call.K.HTTP2 {
 		// net/http's HTTP/1.1 client refuses a chunked trailer block that does
 		// not fit its 4 KiB read buffer (calibrated against the real transport)
